@@ -71,6 +71,13 @@ def spec_edges() -> list:
     return re.findall(r'\(\s*([A-Z]+)\s*,\s*([A-Z]+)\s*\)', blk)
 
 
+def gen_reasons() -> list:
+    """AbortReason values as regenerated (the harness numbers reasons by their position in REASONS)"""
+    txt = (COQ / 'gen' / 'TransferGen.v').read_text()
+    m = re.search(r'Definition abort_reasons : list string := \[(.*?)\]\.', txt)
+    return re.findall(r'"([^"]*)"', m.group(1)) if m else []
+
+
 def gen_constant(name: str) -> str:
     txt = (COQ / 'gen' / 'TransGen.v').read_text()
     m = re.search(rf'Definition {name} : bool := (true|false)\.', txt)
@@ -170,6 +177,18 @@ class SlowListener(Recorder):
         await self.h.slow('listener')
 
 
+class ListenerError(Exception):
+    pass
+
+
+class RaisingListener(Recorder):
+    """an application listener with a bug: it is told the change, then raises"""
+
+    async def on_transfer_state_changed(self, transfer, old, new):
+        self.h.on_edge(old.name, new.name, self.index)
+        raise ListenerError('listener failed')
+
+
 class FakeAsyncOs:
     """stands in for `aiofiles.os` inside aioslsk.transfer.state: same calls, completion decided by the harness"""
 
@@ -220,7 +239,7 @@ def make_gated_lock(h):
 
 class Harness:
     def __init__(self, tmpdir: str, state: str, direction: str, cfg: dict, gate: bool = True, transfer=None, with_manager=False,
-                 slow_listener=False):
+                 slow_listener=False, raising_listener=False):
         from aioslsk.transfer.model import Transfer, TransferDirection
         from aioslsk.transfer.state import TransferState
         import aioslsk.transfer.state as state_mod
@@ -284,7 +303,11 @@ class Harness:
             self.manager = make_manager()
             self.manager._transfers.append(t)
             t.state_listeners.append(self.manager)
-        if slow_listener:
+        if raising_listener:
+            t.state_listeners.append(Recorder(self, 0))
+            t.state_listeners.append(RaisingListener(self, 1))
+            t.state_listeners.append(Recorder(self, 2))
+        elif slow_listener:
             # a slow listener first, then two ordinary ones: every listener must be told the same documented edges
             t.state_listeners.append(SlowListener(self, 0))
             t.state_listeners.append(Recorder(self, 1))
